@@ -107,4 +107,27 @@ theorem tet_children_volume (a0 a1 a2 b0 b1 b2 c0 c1 c2 d0 d1 d2 : Rat) :
   simp [tetMesh]
   refine ⟨?_, ?_, ?_, ?_, ?_, ?_, ?_, ?_, ?_, ?_, ?_, ?_⟩ <;> ring
 
+/-! ### hexahedron: exact trilinear volume -/
+
+theorem hex_rows (v : List (List Rat)) :
+    (refine (hexMesh v)).idx 3 0 =
+      [[0, 8, 12, 20, 16, 22, 24, 26], [8, 1, 20, 13, 22, 17, 26, 25], [12, 20, 2, 9, 24, 26, 18, 23],
+       [20, 13, 9, 3, 26, 25, 23, 19], [16, 22, 24, 26, 4, 10, 14, 21], [22, 17, 26, 25, 10, 5, 21, 15],
+       [24, 26, 18, 23, 14, 21, 6, 11], [26, 25, 23, 19, 21, 15, 11, 7]] := by
+  rfl
+
+set_option maxHeartbeats 1600000 in
+theorem hex_children_volume (a0 a1 a2 b0 b1 b2 c0 c1 c2 d0 d1 d2 e0 e1 e2 f0 f1 f2 g0 g1 g2 h0 h1 h2 : Rat) :
+    (((refine (hexMesh [[a0, a1, a2], [b0, b1, b2], [c0, c1, c2], [d0, d1, d2], [e0, e1, e2], [f0, f1, f2],
+        [g0, g1, g2], [h0, h1, h2]])).idx 3 0).map
+      (hexVol12 (refine (hexMesh [[a0, a1, a2], [b0, b1, b2], [c0, c1, c2], [d0, d1, d2], [e0, e1, e2], [f0, f1, f2],
+        [g0, g1, g2], [h0, h1, h2]])))).sum
+    = hexVol12 (hexMesh [[a0, a1, a2], [b0, b1, b2], [c0, c1, c2], [d0, d1, d2], [e0, e1, e2], [f0, f1, f2],
+        [g0, g1, g2], [h0, h1, h2]]) [0, 1, 2, 3, 4, 5, 6, 7] := by
+  rw [hex_rows]
+  simp only [List.map_cons, List.map_nil, List.sum_cons, List.sum_nil, hexVol12, coord]
+  simp [refine, hexMesh, fineVerts, midpoint, coord, Mesh.tuple, Mesh.idx, Mesh.num, refCount, faceCount,
+    List.range'_succ, List.range_succ]
+  ring
+
 end FeatModel.Refine
